@@ -22,7 +22,7 @@ let parse_zones spec : ZoneTree.zone option array =
   if spec = "-" then [||] else
   Array.of_list (Stdlib.List.map (fun e ->
     match String.split_on_char ',' e with
-    | cl :: nm :: st :: rest when st <> "N" && st <> "F" ->
+    | cl :: nm :: st :: rest when st <> "N" && st <> "F" && st <> "R" ->
       let cls = n_of_int (int_of_string cl) in
       let apex = Server.wire_labels (unhex nm) in
       let recs = (match rest with
@@ -86,20 +86,23 @@ let render_octets (b : BinNums.coq_N list) =
    order into the hash-map tree (Model/CatTree.v; a later entry with an equal (class, name) replaces the
    earlier one inside the tree); the server model then runs on the flat view of that tree
    (Model/ServerCat.v), which Props/C07.v c07_catalog_tree_link proves equivalent to the tree's own lookup *)
-let parse_catalog spec : Server.entry_kind CatTree.entry list =
+let parse_catalog spec : Server.entry_kind CatTree.cat_op list =
   if spec = "-" then [] else
   Stdlib.List.mapi (fun i e ->
     match String.split_on_char ',' e with
+    | cl :: nm :: "R" :: _ ->       (* Catalog::remove at this point of the history *)
+      CatTree.OpRemove (Server.wire_labels (unhex nm), n_of_int (int_of_string cl))
     | cl :: nm :: st :: _ ->
-      { CatTree.e_class = n_of_int (int_of_string cl); CatTree.e_name = Server.wire_labels (unhex nm);
-        CatTree.e_val = (match st with "N" -> Server.ENotYetLoaded | "F" -> Server.EFailedToLoad
-                                     | _ -> Server.ELoaded (nat_of_int i)) }
+      CatTree.OpInsert
+        { CatTree.e_class = n_of_int (int_of_string cl); CatTree.e_name = Server.wire_labels (unhex nm);
+          CatTree.e_val = (match st with "N" -> Server.ENotYetLoaded | "F" -> Server.EFailedToLoad
+                                       | _ -> Server.ELoaded (nat_of_int i)) }
     | _ -> failwith "bad catalog entry") (String.split_on_char ';' spec)
 
-let tree_catalog es =
-  match ServerCat.tree_of_entries es with
+let tree_catalog ops =
+  match ServerCat.tree_of_history ops with
   | Res.Ok c -> ServerCat.flat_of_tree c
-  | _ -> failwith "catalog insert panicked"
+  | _ -> failwith "catalog operation panicked"
 
 let parse_keys spec =
   if spec = "-" then [] else
